@@ -5,6 +5,11 @@
 //!   h_wire run                                            cases on stdin -> observations
 //!   h_wire oracle-c06|oracle-c07 <seed> <n> <tier>        FAILCASE / FAIL <class> :: … / STATS {json}
 //!   h_wire oracle-replay                                  oracle cases on stdin -> FAIL lines
+//!   h_wire gen oracle-c06|oracle-c07 <seed> <n> <tier>    stream `wire-oracle`: oracle cases as blocks
+//!                                                         (`case <id> fmt=oracle kind=c06|c07 type=<T>`); `run`
+//!                                                         prints `ok` / `FAIL <classes>` per op, the model side
+//!                                                         (the property) expects `ok`.  corpus/C06|C07/wire-oracle-*.case
+//!                                                         keep the witnesses of fixed defects.
 //!
 //! Case: `case <id> fmt=<fmt>` + ops + `end`.
 //!   emit  buf=<hex> <repr fields>     real `Repr::emit` into exactly that buffer (zero-filled and
@@ -47,6 +52,11 @@ fn main() {
             let seed: u64 = a[3].parse().unwrap();
             let n: usize = a[4].parse().unwrap();
             let tier = a.get(5).cloned().unwrap_or_else(|| "quick".into());
+            if stream == "oracle-c06" || stream == "oracle-c07" {
+                // stream `wire-oracle`: the oracle's own cases as replayable blocks (expected observation: ok)
+                oracle::gen_cases(&stream[7..], seed, n, &tier, &mut out);
+                return;
+            }
             let (fmt, kind) = stream.rsplit_once('-').expect("stream = <fmt>-emit|parse");
             let f = format(fmt);
             let mut rng = Rng::new(seed ^ if kind == "emit" { 0x06 } else { 0x07 });
@@ -58,6 +68,10 @@ fn main() {
         "run" => {
             for c in stdin_cases() {
                 writeln!(out, "case {}", c.id).unwrap();
+                if c.get("fmt") == Some("oracle") {
+                    oracle::run_case(&c, &mut out);
+                    continue;
+                }
                 let f = format(c.get("fmt").expect("fmt="));
                 for op in &c.ops {
                     writeln!(out, "{}", (f.run_op)(op)).unwrap();
